@@ -61,3 +61,35 @@ def cmp_rejecting(ck, fn, a_req, b_req, rel, what, rule="CMP", floor=1, deep=Tru
     loc = fn.loc(found[0][0]["bb"]) if found else fn.loc()
     ck.ob(rule, fn.path, what, ok, detail, loc)
     return good
+
+
+VERIFY_FAMILY = re.compile(r"::(verify[A-Za-z_0-9]*|check_[A-Za-z_0-9]*|validate[A-Za-z_0-9]*|is_valid[A-Za-z_0-9_]*|has_duplicates)$")
+NEG_PRED = re.compile(r"::(has_duplicates|is_empty|is_zero_point|is_small_order|is_identity)$")
+
+
+def enf_sweep(ck, fn, family=VERIFY_FAMILY, rule="ENF", skip=None, loop_ok=None):
+    """every call in fn to the verification family whose result is bool/Option/Result is enforced.
+    Returns number of sites."""
+    n = 0
+    for (bi, t) in fn.calls(family):
+        if skip is not None and callee_match(t, skip):
+            continue
+        d = t["dest"]
+        tag = rules._tag_of_type(fn.locals[d[0]]) if not d[1] else None
+        if tag is None:
+            continue
+        ef = ("bool", 1) if (tag[0] == "bool" and callee_match(t, NEG_PRED)) else None
+        r = rules.enforcement(fn, bi, extra_fail=ef)
+        name = t["f"].get("name", "?")
+        ck.ob(rule, fn.path, "%s@%d" % (name, n), rules.enforced_ok(r), "%s: %s" % (r["status"], r["detail"]), fn.loc(bi))
+        n += 1
+    return n
+
+
+def arg_from_field(fn, t, idx, field):
+    """argument idx of call t derives from a place with the named field"""
+    return ("field", field) in fn.origins(t["args"][idx], deep=True)
+
+
+def has_call_origin(atoms, pat):
+    return any(a[0] in ("call", "callres", "outparam") and re.search(pat, a[1]) for a in atoms)
